@@ -182,6 +182,13 @@ Proof.
   apply Sound_bind'; [apply Inv_disconnect_interface | apply Sound_disconnect_interface | intros _; apply Sound_ret].
 Qed.
 
+Lemma Sound_disconnect_step i : Sound g0 (U_disc g0 i) (disconnect_step i).
+Proof.
+  unfold disconnect_step. apply Sound_bind'; [apply Inv_get | apply Sound_get | intros b].
+  destruct b; [apply Sound_disconnect_peers_of | apply Sound_ret].
+Qed.
+
+
 Lemma disc_list_mono d (l : list N) ii :
   (forall i, In i l -> True) ->
   In ii (disc_list (restrict g0 d) l) -> In ii (disc_list g0 l).
@@ -221,10 +228,10 @@ Proof. intros H. apply by_name_restrict in H. tauto. Qed.
 
 Lemma Sound_peers_loop (P : N -> Prop) (q : N -> Prop) l :
   (forall i, In i l -> q i) -> (forall i x, q i -> U_disc g0 i x -> P x) ->
-  Sound g0 P (for_each_set disconnect_peers_of l).
+  Sound g0 P (for_each_set disconnect_step l).
 Proof.
-  intros Hl HP. apply Sound_for_each_set. intros i Hi. split; [apply Inv_disconnect_peers_of|].
-  apply (Sound_weaken g0 (U_disc g0 i)); [|apply Sound_disconnect_peers_of].
+  intros Hl HP. apply Sound_for_each_set. intros i Hi. split; [apply Inv_disconnect_step|].
+  apply (Sound_weaken g0 (U_disc g0 i)); [|apply Sound_disconnect_step].
   intros x Hx. apply (HP i x); [apply Hl; exact Hi | exact Hx].
 Qed.
 
@@ -232,13 +239,13 @@ Lemma Sound_node_tail nm n :
   In n (by_name g0 CNode nm) ->
   Sound g0 (A_node g0 nm)
     (bind (m_get (fun g => disc_list g (node_interface_list g n))) (fun ifs =>
-     bind (for_each_set disconnect_peers_of ifs) (fun _ =>
+     bind (for_each_set disconnect_step ifs) (fun _ =>
      bind (m_get (fun g => by_name g CNode nm)) (fun all =>
      bind (uniq all EQuery EQuery) (fun n' => remove_node_graph n'))))).
 Proof.
   intros Hn. apply Sound_bind_get. intros d1.
   apply Sound_bind'.
-  - apply Inv_for_each_set. intros i. apply Inv_disconnect_peers_of.
+  - apply Inv_for_each_set. intros i. apply Inv_disconnect_step.
   - apply (Sound_peers_loop _ (fun i => In i (disc_list g0 (node_interface_list g0 n)))).
     + intros i Hi. apply (disc_list_sub g0 (node_interface_list (restrict g0 d1) n)); [apply (node_interface_list_mono d1)|].
       apply (disc_list_mono d1); [auto | exact Hi].
@@ -273,7 +280,10 @@ Qed.
 
 Lemma Sound_api_remove_link nm : Sound g0 (fun x => In x (by_name g0 CLink nm)) (api_remove_link nm).
 Proof.
-  unfold api_remove_link. apply Sound_get_uniq. intros d n E. unfold remove_link_graph.
+  unfold api_remove_link. apply Sound_get_uniq. intros d n E.
+  apply Sound_bind'; [apply Inv_get | apply Sound_get | intros sp].
+  apply Sound_bind'; [apply Inv_guard | apply Sound_guard | intros _].
+  unfold remove_link_graph.
   apply Sound_bind'; [apply Inv_need_class | apply Sound_need_class | intros _].
   apply Sound_delete. apply (by_name_sub d). rewrite E. left. reflexivity.
 Qed.
@@ -282,7 +292,7 @@ Lemma Sound_remove_ns_disconnecting s : Sound g0 (A_ns g0 s) (remove_ns_disconne
 Proof.
   unfold remove_ns_disconnecting. apply Sound_bind_get. intros d.
   apply Sound_bind'.
-  - apply Inv_for_each_set. intros i. apply Inv_disconnect_peers_of.
+  - apply Inv_for_each_set. intros i. apply Inv_disconnect_step.
   - apply (Sound_peers_loop _ (fun i => In i (disc_list g0 (cpn g0 s)))).
     + intros i Hi. apply (disc_list_sub g0 (first_neighbor (restrict g0 d) s RConnects CCP)).
       * intros y Hy. apply (fn_mono d); [discriminate | exact Hy].
@@ -321,7 +331,7 @@ Proof.
   destruct Hc as [Hc1 Hc2].
   apply Sound_bind_get. intros d1.
   apply Sound_bind'.
-  - apply Inv_for_each_set. intros i. apply Inv_disconnect_peers_of.
+  - apply Inv_for_each_set. intros i. apply Inv_disconnect_step.
   - apply (Sound_peers_loop _ (fun i => In i (disc_list g0 (comp_interface_list g0 c)))).
     + intros i Hi. apply (disc_list_sub g0 (comp_interface_list (restrict g0 d1) c)); [apply (owner_cps_mono d1)|].
       apply (disc_list_mono d1); [auto | exact Hi].
